@@ -1887,11 +1887,17 @@ class Executor(object):
             bound[pnames[0]] = recv
             rest = pnames[1:]
         if len(args) > len(rest):
-            raise Unsupported('too many positional arguments for %s' % (contract.key if contract else fn_node.name))
+            if contract is None and fn_node is not None and fn_node.args.vararg is not None:
+                bound[fn_node.args.vararg.arg] = VTuple(args[len(rest):])
+                args = args[:len(rest)]
+            else:
+                raise Unsupported('too many positional arguments for %s' % (contract.key if contract else fn_node.name))
         for p, a in zip(rest, args):
             bound[p] = a
         for k, v in kwargs.items():
             if k in bound or k not in pnames:
+                if contract is None and fn_node is not None and fn_node.args.kwarg is not None:
+                    continue
                 raise Unsupported('bad keyword %s' % k)
             bound[k] = v
         missing = [p for p in pnames if p not in bound]
